@@ -136,6 +136,10 @@ def run(repo, rep, tier):
               "rejects what is NOT a string (with CHAMELEON_DEBUG every "
               "fragment passes here)", construct="debug-stream-guard",
               where=L.where(ds))
+    # 'expr | default' / 'expr | nothing' keep or drop the markup when the
+    # left side fails with a lookup-type error (C04 owns the table)
+    L.borrow(repo, rep, "R01.5", "C04", c04._tables,
+             ("pipe-exceptions", "exists-exceptions"), minimum=1)
     L.state_rule(repo, rep)
 
 
@@ -1214,6 +1218,11 @@ def statement_patterns(repo, rep, rule="R01.8"):
             bad.append("a part is %s" % src(n.args[0]))
     drops = [n for n in ast.walk(sp.node) if isinstance(n, ast.Delete)]
     for d in drops:
+        if not any(isinstance(t_, ast.expr) and "len(parts)" in src(t_)
+                   for t_, v_ in L.guards_of(d, sp.node)):
+            bad.append("the trailing empty part is dropped whatever the "
+                       "number of parts (a lone empty part has to stay: an "
+                       "empty statement is an error)")
         for t_, v_ in L.guards_of(d, sp.node):
             if isinstance(t_, ast.expr) and "len(parts)" in src(t_):
                 for cj in (t_.values if isinstance(t_, ast.BoolOp)
